@@ -6,6 +6,28 @@ extern "C" {
     fn mprotect(addr: *mut c_void, len: usize, prot: c_int) -> c_int;
     fn munmap(addr: *mut c_void, len: usize) -> c_int;
     pub fn alarm(secs: u32) -> u32;
+    fn setitimer(which: c_int, new: *const ItimerVal, old: *mut ItimerVal) -> c_int;
+}
+
+#[repr(C)]
+struct TimeVal {
+    tv_sec: i64,
+    tv_usec: i64,
+}
+#[repr(C)]
+struct ItimerVal {
+    it_interval: TimeVal,
+    it_value: TimeVal,
+}
+const ITIMER_PROF: c_int = 2;
+
+/// Limits the CPU time (user + system) of the case being executed: SIGPROF ends the process after `secs` seconds of
+/// CPU time (0 disarms). A wall-clock alarm would fire on a loaded machine for a case that is merely slow.
+pub fn cpu_limit(secs: i64) {
+    let v = ItimerVal { it_interval: TimeVal { tv_sec: 0, tv_usec: 0 }, it_value: TimeVal { tv_sec: secs, tv_usec: 0 } };
+    unsafe {
+        setitimer(ITIMER_PROF, &v, core::ptr::null_mut());
+    }
 }
 const PROT_NONE: c_int = 0;
 const PROT_RW: c_int = 3;
